@@ -1,0 +1,15 @@
+//go:build verif
+// +build verif
+
+package server
+
+// Contracts for the deductive verifier in /verif (govc).  Comment-only file,
+// compiled only under the build tag `verif`.
+
+//@ property C15
+
+// the partition hash is taken over the primary key = raw key without "<namespace>:"
+//@ func GetPKAndHashSum(cmdName string, cmd redcon.Command) (string, []byte, int, error)
+//@   ensures result3 == nil ==> len(cmd.Args) >= 2 && result2 == int(murmur3sum(result1))
+//@   ensures result3 == nil ==> (forall idx int :: firstSep(cmd.Args[1], idx) ==> idx >= 1 && sameSlice(result1, cmd.Args[1][idx+1:len(cmd.Args[1])]))
+//@   ensures len(cmd.Args) < 2 ==> result3 != nil
